@@ -159,6 +159,7 @@ func (l *Loader) resolveIncludes(path string, file parsedFile, visited *traversa
 	errors := append([]LoadError(nil), file.parseErrors...)
 
 	result := NewResolvedJournal(journal)
+	result.PrimaryPath = path
 	visited.loaded[path] = true
 	visited.stack[path] = true
 	defer delete(visited.stack, path)
